@@ -568,6 +568,26 @@ def r06_5(chk, repo):
             string_value(dict(call[0].extra["kwargs"])["gradient_direction"]) == "descent" and call[0].extra["args"][1].key() == "isovalue"
         chk.ob("R06.5", SF, q2, "the mesher is run at the requested isovalue with descent orientation (density / weight is larger inside)", okc,
                fingerprint=f"{q2}:call")
+        # the field is the density / weight at EVERY grid point: one evaluation over the whole grid, reshaped (a field filled only where a
+        # pre-filter says so puts the level set on the filter's boundary wherever the true level set lies outside it)
+        fld = call[0].extra["args"][0] if call else None
+        fdefs = {k: v for k, v in ev2.defs.items() if k[0] == "local" and k[1] in ("d", "weights")}
+        chain = []
+        cur = fld
+        for _ in range(4):
+            a = cur.as_atom() if cur is not None else None
+            if a and a[0] == "local" and a in fdefs:
+                cur = fdefs[a]
+                chain.append(str(cur)[:60])
+                continue
+            break
+        ck = cur.key() if cur is not None else ""
+        full = bool(ck) and (".rho($pts" in ck or ".weights($pts" in ck) and ck.endswith(".reshape(x.shape)") | ck.endswith(".reshape(shape)") | ck.endswith(".reshape($x.shape)") \
+            and "[" not in ck.split("(", 1)[1].split(")")[0]
+        masked = [e for e in ev2.events if e.kind in ("store", "aug") and e.target.key().startswith(("$d[", "$weights[", "$d'", "$weights'"))]
+        chk.ob("R06.5", SF, q2, "the field handed to the mesher is the density / weight evaluated at every grid point (one call over the whole grid, "
+               "reshaped to the grid)", full and not masked, node=(masked[0].node if masked else (call[0].node if call else None)),
+               fingerprint=f"{q2}:field-complete", expected="<density>.rho(pts).reshape(shape)", found=(f"partial fill {str(masked[0].target)[:50]} = {str(masked[0].value)[:60]}" if masked else ck[:140]))
 
 
 def r06_6(chk, repo):
